@@ -535,13 +535,53 @@ impl<'a> Sim<'a> {
             let (sp, dp) = ports(&p);
             let dst = SocketAddr::new(p.dst, dp);
             let src = SocketAddr::new(p.src, sp);
-            if self.listening_at(dst).is_some() {
+            if let Some(l) = self.listening_at(dst) {
                 if let Some(c) = self.cs.iter_mut().find(|c| c.wire_src == Some(src) && c.target == Some(dst)) {
                     c.syn_delivered_listening = true;
+                }
+                // coverage probe (fault-free runs): does this SYN meet a listener whose backlog is
+                // filled only by queued and still-handshaking connections *together*?
+                if self.sc.faults.is_empty() && !self.sc.reorder {
+                    let backlog = self.sc.cfg.backlog;
+                    let ready = self.unaccepted_ok(l);
+                    let lport = self.ls[l].addr.port();
+                    let ns = turmoil_net::netstat(self.d.addrs[0][0]);
+                    let handshaking = ns.entries.iter().filter(|e| e.local.port() == lport && e.state == Some(NetstatState::SynReceived) && e.peer != Some(src)).count();
+                    if ready > 0 && ready < backlog && handshaking > 0 && handshaking < backlog && ready + handshaking >= backlog {
+                        self.rep.probes.inc("syn_met_backlog_filled_by_queued_plus_handshaking");
+                    }
+                    if ready >= backlog {
+                        self.rep.probes.inc("syn_met_full_accept_queue");
+                    }
                 }
             }
         }
         self.d.deliver(p);
+    }
+
+    /// Connections to listener `l` that their connector saw established and that nobody accepted yet.
+    fn unaccepted_ok(&self, l: usize) -> usize {
+        (0..self.cs.len()).filter(|&c| self.sc.conns[c].to == Some(l) && self.cs[c].accepted_round.is_none() && self.cs[c].result.as_ref().map(|r| r.0 == "Ok").unwrap_or(false)).count()
+    }
+
+    /// Fault-free runs: a connector only sees `Ok` after the listener admitted its SYN, and an
+    /// admitted connection occupies the backlog until it is accepted; so the connections that are
+    /// established for their connector and not yet accepted can never outnumber the backlog.
+    fn check_backlog_invariant(&mut self) {
+        if !self.sc.faults.is_empty() || self.sc.reorder {
+            return;
+        }
+        for l in 0..self.ls.len() {
+            if !self.ls[l].bound {
+                continue;
+            }
+            let n = self.unaccepted_ok(l);
+            if n > self.sc.cfg.backlog {
+                let who: Vec<usize> = (0..self.cs.len()).filter(|&c| self.sc.conns[c].to == Some(l) && self.cs[c].accepted_round.is_none() && self.cs[c].result.as_ref().map(|r| r.0 == "Ok").unwrap_or(false)).collect();
+                self.fail("BacklogExceeded", format!("r{}: {n} connections to listener l{l} (c{who:?}) are established for their connectors and not yet accepted, the backlog is {}: a connect succeeded without backlog room", self.round, self.sc.cfg.backlog));
+                return;
+            }
+        }
     }
 
     /// One round: poll what was woken, egress, apply fates, deliver what is due. Returns true
@@ -550,6 +590,7 @@ impl<'a> Sim<'a> {
         for c in 0..self.cs.len() {
             self.poll_connect(c);
         }
+        self.check_backlog_invariant();
         self.poll_accepts();
         self.round += 1;
         let mut out = Vec::new();
@@ -1182,12 +1223,14 @@ fn gen_scenario(rng: &mut Rng, tier: Tier) -> Scenario {
 /// Backlog pressure: more connectors than the backlog admits, nobody accepts until the late
 /// comers have certainly given up; then everything queued is accepted.
 fn gen_pressure(rng: &mut Rng, guarded: bool, mut cfg: NetCfg, hosts: Vec<Vec<String>>, listeners: Vec<ListenerSpec>, nclients: usize) -> Scenario {
-    cfg.backlog = rng.usize(1, 2);
-    let n = cfg.backlog + rng.usize(1, 2);
+    cfg.backlog = rng.usize(1, 3);
     let mut conns = Vec::new();
     let mut tl = Vec::new();
     let mut t = 0u32;
-    for c in 0..n {
+    let burst = cfg.backlog >= 2 && rng.chance(2, 3);
+    // connectors that arrive one after the other and fill (part of) the accept queue
+    let seq = if burst { rng.usize(1, cfg.backlog - 1) } else { cfg.backlog + rng.usize(1, 2) };
+    for c in 0..seq {
         conns.push(ConnSpec { from: rng.usize(1, nclients), to: Some(0), sel: rng.below(3) as u8 });
         tl.push((t, Act::Connect { c }));
         // the next one starts after this one's handshake is over
@@ -1196,6 +1239,18 @@ fn gen_pressure(rng: &mut Rng, guarded: bool, mut cfg: NetCfg, hosts: Vec<Vec<St
             tl.push((t, Act::Write { c, client: true, n: 8 }));
         }
     }
+    if burst {
+        // then several at once (same round or the next): while their handshakes are in flight the
+        // backlog is filled by queued and half-open connections together
+        let m = cfg.backlog - seq + rng.usize(1, 2);
+        for k in 0..m {
+            let c = seq + k;
+            conns.push(ConnSpec { from: 1 + (k + rng.usize(0, 1)) % nclients, to: Some(0), sel: rng.below(3) as u8 });
+            tl.push((t + rng.range(0, 1) as u32, Act::Connect { c }));
+        }
+        t += 2;
+    }
+    let n = conns.len();
     let give_up = cfg.retx_threshold * (cfg.retx_max + 2) + 3;
     let mut ta = t + give_up;
     for _ in 0..n {
@@ -1212,7 +1267,7 @@ impl Property for C13 {
     type Scenario = Scenario;
 
     fn rule() -> String {
-        "seeded timelines: a server host (1-2 addresses, v4 or v6) with 1-2 listeners (wildcard or specific, backlog 1-4) and 1-2 client hosts; 1-5 (thorough 1-8) connections started 0-3 rounds apart (up to 4 concurrent) or after a gap (sequential), to a listener or to a port nobody listens on, from another host or from the server host itself; per connection a seeded list of client actions (cancel the pending connect at round +0..4, write 1/8/100 bytes, read, shutdown, drop) and, after a blocking accept armed at round +0..6 (or never), of accepted-end actions; optional listener drop at a seeded round; retx_threshold 2-3, retx_max 3-5. Faults: for each seeded timeline the fault-free packet sequence is recorded and the timeline is re-run once per packet position with that packet dropped and once with it delayed by retx_threshold+1 rounds (quick: positions < 24, thorough: < 48, thorough also delay 1); a quarter of the timelines carry a seeded multi-fault plan (<= retx_max-2 drops, delays) and an eighth deliver each round's packets in reverse order. Oracle: connect Ok iff a listener was bound during the whole attempt and the backlog certainly had room, ConnectionRefused iff nothing listened, not Ok when the backlog was certainly full (fault-free runs); every accepted stream matches exactly one attempt with mirrored addresses, every connection the connector saw established is handed out exactly once; after both ends of everything are closed and the wire stayed empty for Q = retx_threshold*(retx_max+2) rounds socket_counts(host) equals the listeners still open (checkpoint A) resp. zero after the listeners are dropped (B); a third of the runs then re-bind the listener addresses, rotate the client's ephemeral cursor once round the range and re-connect over the same 4-tuples (C, D). Non-trivial: some end closed/cancelled/shut down while its peer was not Established, or a listener was dropped with an un-accepted connection; distinct = digest of action kinds with the peer state at each close and outcome kinds".into()
+        "seeded timelines: a server host (1-2 addresses, v4 or v6) with 1-2 listeners (wildcard or specific, backlog 1-4) and 1-2 client hosts; 1-5 (thorough 1-8) connections started 0-3 rounds apart (up to 4 concurrent) or after a gap (sequential), to a listener or to a port nobody listens on, from another host or from the server host itself; per connection a seeded list of client actions (cancel the pending connect at round +0..4, write 1/8/100 bytes, read, shutdown, drop) and, after a blocking accept armed at round +0..6 (or never), of accepted-end actions; optional listener drop at a seeded round; retx_threshold 2-3, retx_max 3-5. Faults: for each seeded timeline the fault-free packet sequence is recorded and the timeline is re-run once per packet position with that packet dropped and once with it delayed by retx_threshold+1 rounds (quick: positions < 24, thorough: < 48, thorough also delay 1); a quarter of the timelines carry a seeded multi-fault plan (<= retx_max-2 drops, delays) and an eighth deliver each round's packets in reverse order. Oracle: connect Ok iff a listener was bound during the whole attempt and the backlog certainly had room, ConnectionRefused iff nothing listened, not Ok when the backlog was certainly full, and never more established-but-unaccepted connections per listener than its backlog (fault-free runs; a seventh of the timelines are backlog-pressure shapes: sequential connectors beyond the backlog, or a partly filled accept queue plus a burst of simultaneous connectors, accepts only after the late comers gave up); every accepted stream matches exactly one attempt with mirrored addresses, every connection the connector saw established is handed out exactly once; after both ends of everything are closed and the wire stayed empty for Q = retx_threshold*(retx_max+2) rounds socket_counts(host) equals the listeners still open (checkpoint A) resp. zero after the listeners are dropped (B); a third of the runs then re-bind the listener addresses, rotate the client's ephemeral cursor once round the range and re-connect over the same 4-tuples (C, D). Non-trivial: some end closed/cancelled/shut down while its peer was not Established, or a listener was dropped with an un-accepted connection; distinct = digest of action kinds with the peer state at each close and outcome kinds".into()
     }
     fn components_real() -> Vec<&'static str> {
         vec!["turmoil-net: kernel::tcp (handshake, accept_syn backlog, on_close, reap_closed, abort paths, retransmit), SocketTable (binding + connection index, PortAllocator), shim TcpListener / TcpStream (FdGuard on cancelled connect), netstat, verif::socket_counts hook"]
